@@ -274,6 +274,14 @@ Definition getouts (v : uval) : list (option fval) := map (getopt getfval) (getL
 Definition e_frun (v : uval) : uval :=
   let r := frun (getfkind (arg 0 v)) (finit (getfkind (arg 0 v)) (getZ (arg 1 v))) (getcalls (arg 2 v)) in
   VL [vlist (vopt vfval) (fst r); vopt vfval (f_value (snd r)); VZ (f_sum (snd r))].
+(* overlapping calls: [kind; t0; events] with events [0; t; value] (a call) | [1] (the oldest running callback returns) *)
+From PV Require Import Model.FiltersOverlap.
+Definition getoev (v : uval) : oev :=
+  match getN (arg 0 v) with 0%N => OCall (getZ (arg 1 v)) (getfval (arg 2 v)) | _ => ODone end.
+Definition e_orun (v : uval) : uval :=
+  let k := getfkind (arg 0 v) in
+  let r := orun false k (mkO (finit k (getZ (arg 1 v))) []) (map getoev (getL (arg 2 v))) in
+  VL [vlist (vopt vfval) (fst r); vopt vfval (f_value (o_f (snd r))); VZ (f_sum (o_f (snd r)))].
 Definition e_frun2 (v : uval) : uval :=
   vlist (vopt vfval) (frun2 (getfkind (arg 0 v)) (getfkind (arg 1 v)) (finit (getfkind (arg 0 v)) (getZ (arg 2 v)))
                             (finit (getfkind (arg 1 v)) (getZ (arg 2 v))) (getcalls (arg 3 v))).
